@@ -70,6 +70,8 @@ type Exec struct {
 	noFork      bool
 	frameSuffix string
 	nextPC      int
+	writeLog    []writeRec
+	lastObl     *Obligation
 	pathMode    bool // `split returns`: joins are not merged (bounded), see execNode
 	// nonNil holds the terms `(not (= p nil))` of pointers assumed non-nil on entry
 	nonNil map[string]bool
@@ -113,6 +115,7 @@ func (x *Exec) inSpec() bool { return x.specDepth > 0 || x.g.InQuant() }
 // oblige records an obligation: "cond can happen" must be refuted.
 func (x *Exec) oblige(kind, detail string, props []string, cond string, fn *ssa.Function, pos token.Pos) {
 	if cond == "false" {
+		x.lastObl = &Obligation{} // trivially discharged: not recorded
 		return
 	}
 	base := fmt.Sprintf("%s:%s:%s", x.target, kind, detail)
@@ -123,6 +126,7 @@ func (x *Exec) oblige(kind, detail string, props []string, cond string, fn *ssa.
 		o.Pos = fn.Prog.Fset.Position(pos)
 	}
 	x.obls = append(x.obls, o)
+	x.lastObl = o
 }
 
 // safety records a safety obligation for a step that panics unless ok holds, and
